@@ -38,9 +38,9 @@ type fc struct {
 	binders []binder
 	inSC    int // depth of short-circuit right-hand sides
 
-	fuelVar string // name of the fuel variable usable for loops / calls
+	fuelVar  string // name of the fuel variable usable for loops / calls
 	selfFuel string // fuel passed to recursive self calls
-	outSize int
+	outSize  int
 }
 
 const maxOutput = 8 << 20
@@ -751,8 +751,10 @@ func (c *fc) userCall(e *ast.CallExpr, g *Func) (string, []gty) {
 	if fuelArg != "" {
 		fuelArg = " " + fuelArg
 	}
-	// the callee's own panics
-	c.addGuard("call", e.Pos(), "("+g.OkName+fuelArg+argStr+")", g.GoName+" does not panic")
+	// the callee's own panics (nothing to check if it cannot panic)
+	if !g.trivialOk {
+		c.addGuard("call", e.Pos(), "("+g.OkName+fuelArg+argStr+")", g.GoName+" does not panic")
+	}
 	term := "(" + g.CoqName + fuelArg + argStr + ")"
 	if g.fuelled {
 		if c.inSC > 0 {
@@ -1164,25 +1166,18 @@ func (c *fc) ifStmt(s *ast.IfStmt, rest func() string, cx *ctx) string {
 
 func (c *fc) switchStmt(s *ast.SwitchStmt, rest func() string, cx *ctx) string {
 	afterInit := func() string {
-		var tagName string
-		var tagG gty
-		var tagPre pre
-		if s.Tag != nil {
-			tt, g := c.expr(s.Tag)
-			if g.k == kList {
-				c.fail(s.Tag.Pos(), "switch on %s: unsupported", g.desc())
-			}
-			tagPre = c.take()
-			tagG = g
-			tagName = c.fresh("tag")
-			_ = tt
-			defer func() {}()
-			// bound below
-			tagNameTerm := tt
-			inner := cxSwitch(c, s, tagName, tagG, rest, cx)
-			return c.wrap(tagPre, "let "+tagName+" := "+tagNameTerm+" in\n"+inner, cx)
+		if s.Tag == nil {
+			return cxSwitch(c, s, "", gty{}, rest, cx)
 		}
-		return cxSwitch(c, s, "", tagG, rest, cx)
+		// the tag is evaluated exactly once, before any case expression
+		tagTerm, g := c.expr(s.Tag)
+		if g.k == kList {
+			c.fail(s.Tag.Pos(), "switch on %s: unsupported", g.desc())
+		}
+		tagPre := c.take()
+		tagName := c.fresh("tag")
+		inner := cxSwitch(c, s, tagName, g, rest, cx)
+		return c.wrap(tagPre, "let "+tagName+" := "+tagTerm+" in\n"+inner, cx)
 	}
 	if s.Init != nil {
 		return c.stmt(s.Init, afterInit, cx)
@@ -1475,16 +1470,8 @@ func (c *fc) forStmt(s *ast.ForStmt, rest func() string, cx *ctx) string {
 				c.addGuard("loop_bound", s.Cond.Pos(), "(Z.ltb (min_int "+shape.ity+") "+b+")",
 					c.src(shape.bound)+" > min("+shape.ity+") (else i-- wraps and the loop never ends)")
 			}
-			// guards of evaluating the bound itself are checked by the first
-			// evaluation of the condition inside the loop; drop them here but
-			// keep the loop_bound guard
-			var keep []string
-			for _, g := range c.guards {
-				if strings.Contains(g, "max_int") || strings.Contains(g, "min_int") {
-					keep = append(keep, g)
-				}
-			}
-			c.guards = keep
+			// The bound is loop-invariant and Go evaluates the condition at
+			// least once, so its guards are checked here, at loop entry.
 			entryPre = c.take()
 		} else {
 			if c.fuelVar == "" {
